@@ -410,7 +410,22 @@ fn random_scenario(g: &mut GRng, id: u64, seed: u64, max_packets: usize, no_mach
         let np = g.gen_range(1..=max_packets);
         let mut t = 0i64;
         let mut trace = Vec::new();
-        if g.gen_range(0..3) == 0 {
+        if no_machines && g.gen_range(0..4) == 0 {
+            // steady two-way traffic: both sides send periodically for several seconds, so that no 100 ms
+            // window of either direction holds more than one or two packets while every second holds many
+            // of both directions together
+            let pc = *[110_000i64, 150_000, 200_000, 300_000].get(g.gen_range(0..4)).unwrap();
+            let ps = *[110_000i64, 150_000, 170_000, 250_000].get(g.gen_range(0..4)).unwrap();
+            let off = g.gen_range(0..100_000i64);
+            let dur = g.gen_range(2_000_000..5_000_000i64);
+            let mut v: Vec<(i64, bool)> = Vec::new();
+            let mut x = 0i64;
+            while x < dur { v.push((x, true)); x += pc; }
+            let mut y = off;
+            while y < dur { v.push((y, false)); y += ps; }
+            v.sort();
+            trace = v;
+        } else if g.gen_range(0..3) == 0 {
             // structured: bursts of one direction (identical or near-identical timestamps),
             // separated by long gaps, other-direction packets in between, a late straggler
             let nb = g.gen_range(1..=3);
